@@ -281,7 +281,7 @@ AREAS = {
 }
 
 
-def build_record(shape: dict, index: int, dirty: bool = False):
+def build_record(shape: dict, index: int, dirty: bool = False, renamed: bool = False):
     """ Abstract record of Pool_RecMC -> secmet Record with genes, protoclusters, candidates, regions. """
     from .. import build as B
     from antismash.common.secmet.features import Protocluster
@@ -291,6 +291,9 @@ def build_record(shape: dict, index: int, dirty: bool = False):
         seq = ("acgtRYacgn" * 9)[:RECORD_LENGTH]
     record = DummyRecord(seq=seq, circular=shape["circ"], record_id=f"rec{index}")
     record.record_index = index
+    if renamed and index % 2 == 0:
+        # a record whose identifier had to be changed remembers the one it came with
+        record.original_id = f"contig|{index}:1"
     for name in sorted(shape["genes"]):
         parts, strand = GENES[name]
         location = B.loc({"parts": parts, "strand": strand})
@@ -335,7 +338,7 @@ def project_record(record) -> dict:
                         "products": list(region.products)})
     return {
         "id": str(record.id), "seq": str(record.seq), "circular": bool(record.is_circular()),
-        "skip": record.skip or "", "index": int(record.record_index or 0),
+        "skip": record.skip or "", "index": int(record.record_index or 0), "orig": str(record.original_id or ""),
         "cds": [{"name": cds.get_name(), "loc": P.loc(cds.location), "translation": str(cds.translation),
                  "open": [type(cds.location.start).__name__ == "BeforePosition", type(cds.location.end).__name__ == "AfterPosition"],
                  "region": cds.region.get_region_number() if cds.region else 0} for cds in record.get_cds_features()],
@@ -464,8 +467,11 @@ def observe_transport(case: dict, _scratch: str = None) -> dict:
     via, cpus = case["via"], case["cpus"]
     dirty = via in ("sanitise_sequence", "pre_process")
 
+    # (the transports that hand over a timeout: a worker lost on the way shows as an error there, not as a hang)
+    renamed = via in ("pickle", "echo", "sanitise_sequence", "ensure_cds_info")
+
     def fresh():
-        return [build_record(shape, idx + 1, dirty=dirty) for idx, shape in enumerate(case["shapes"])]
+        return [build_record(shape, idx + 1, dirty=dirty, renamed=renamed) for idx, shape in enumerate(case["shapes"])]
     destroy_config()
     try:
         if via == "pickle":
